@@ -220,6 +220,27 @@ PROPS = {
         "states = distinct handler snapshots, transitions = exchanges.",
         ["oc", "rel"], ["oc", "rel"],
     ),
+    "C12": P(
+        "model_checking",
+        "Exhaustive enumeration of all merges (message-level interleavings at the serial handler) of 2-3 scripted block-wise "
+        "transfers (4-exchange upload, 5-exchange download, 5-exchange upload-then-download) for every pair of script kinds x "
+        "6 key-difference variants (endpoint, method PUT/POST/PATCH, GET/FETCH/DELETE, path segmentation [a,b] vs [a/b], path "
+        "prefixes, other paths), and triples (34650 merges of 3 uploads; thorough: 756756 merges of 3x5). Every exchange runs "
+        "through the real handler via encoded bytes; oracle: each transfer's transcript == its solo transcript, every reply "
+        "echoes the id and token of its request. states = distinct handler snapshots, transitions = exchanges.",
+        ["oc"], ["oc", "rel"],
+    ),
+    "C20": P(
+        "model_checking",
+        "Explicit-state BFS to a fixpoint over {next request of the transfer under test, requests on two other keys, clock ticks "
+        "333/499/1001 ms} with expiry 1000 ms on the harness-owned clock (lru_time_cache's fake-clock seam) for a Block2 download "
+        "and a Block1 upload; per transition: served-from-cache iff idle < expiry, fresh application call / no pre-expiry byte "
+        "delivered iff idle > expiry, physical entries (live key instances) == entries within lifetime after every handler call. "
+        "Plus linear retention histories (1..2000 intervening requests) and reclamation histories (1..50 abandoned 1 KiB "
+        "uploads). Thorough adds real-clock one-sided conformance runs. states = canonical (hook snapshot, capped idle times, "
+        "model progress).",
+        ["oc"], ["oc", "rel", "realclock"],
+    ),
 }
 
 
